@@ -530,6 +530,18 @@ def random_operand(isa, rng, wild=0.03, odd=0.04):
     return P(type_id="pld", target="l1", policy="keep")
 
 
+def flip_displacement_kind(ops):
+    """the operand list with the first memory operand's displacement kind flipped (immediate <-> identifier); None if there is none"""
+    R, M, I, Id, C, P, F = _cls()
+    for i, o in enumerate(ops):
+        if isinstance(o, M) and isinstance(o.offset, (I, Id)):
+            off = Id(name="sym") if isinstance(o.offset, I) else I(value=8)
+            out = list(ops)
+            out[i] = M(base=o.base, offset=off, index=o.index, scale=o.scale, pre_indexed=o.pre_indexed, post_indexed=o.post_indexed)
+            return out
+    return None
+
+
 def near_miss(isa, ops, rng):
     """one operand's kind / width / shape changed, or the count changed"""
     R, M, I, Id, C, P, F = _cls()
